@@ -16,6 +16,9 @@ SM_TEXT = ("FrameSM.tla is a state machine over frame handles and a heap of colu
   "frames record after every call each frame's columns, cells, the memory-sharing partition of all live columns, grouping and attribute/key "
   "coherence, and are validated step by step by FrameSMTrace; pokes are really executed so an alias shows up as a change in another object. ")
 CHECKS = {
+ "C10": dict(engine="VectorCtor",
+   text="VectorCtor.tla states the inference / missing-value laws over tag sequences (18 kinds of Python and NumPy scalars incl. None, NaN, NaT, empty string): the missing set, the inferred class and its missing representation, value preservation, and names the free points (NaT outside date-likes, strings mixed with non-stringifiable values, caller-chosen dtypes on foreign values). VectorCtorMC enumerates every tag sequence of length <= 3; each is built for real with and without explicit dtypes and two payload variants, observing dtype, is_na, tolist, rebuild-equal, na_dtype/na_value, drop_na, replace_na, and equal() matrices over pools of vectors (reflexive/symmetric/transitive judged in TLA+); judged by the VectorCtorTrace monitor.",
+   design="§3 C10", technique="TLA+ spec (VectorCtor) + TLC exhaustive enumeration of tag sequences + monitor-style trace validation"),
  "C08": dict(engine="AggJit",
    text="AggJit.tla models the JIT state the statement quantifies over (kernel specialisations in memory, on-disk cache, cache on/off, process boundaries); layer 1 says a call's result does not depend on that state. AggJitMC enumerates every history of the bound (first-use orders x processes x cache settings) and predicts per call compile/load/reuse and - through the named deviation Broken() - the recorded order-dependence defect. A stratified subset (every kernel-class order, ordered helper pairs, 3-call/3-process histories) is replayed in fresh interpreters with a private cache directory; every call runs with USE_NUMBA on and off on identical data and the comparison is judged by AggJitTrace. Dispatcher statistics confirm which path ran (spec-drift NOTE otherwise).",
    design="§3 C08", technique="TLA+ history machine (AggJit) enumerated by TLC + replay of the histories in fresh subprocesses + monitor-style validation"),
@@ -57,6 +60,7 @@ CHECKS = {
    design="§3 C11", technique="TLA+ spec (VectorOps) + TLC exhaustive enumeration + monitor-style trace validation of real calls"),
 }
 ENGINES = [
+ dict(name="VectorCtor", path="spec/VectorCtor.tla", serves_properties=["C10"], kind_free_text="TLA+ construction/NA laws + VectorCtorMC + VectorCtorTrace monitor (TLC)"),
  dict(name="AggJit", path="spec/AggJit.tla", serves_properties=["C08"], kind_free_text="TLA+ JIT-state history machine + AggJitMC + AggJitTrace; harness/jit_runner.py subprocess executor"),
  dict(name="Agg", path="spec/Agg.tla", serves_properties=["C07"], kind_free_text="TLA+ helper definitions + AggMC + AggTrace monitor (TLC)"),
  dict(name="FrameSM", path="spec/FrameSM.tla", serves_properties=["C01", "C06"], kind_free_text="TLA+ session machine with buffer heap + FrameSMMC (exhaustive, action properties) + FrameSMTrace (history validation)"),
